@@ -127,7 +127,11 @@ def evaluate(case):
                 if nm.upper() + "(" not in o8.text:
                     return Result(False, "f08-intrinsic-not-recognised:" + nm, nontrivial, labels, {})
         elif o8.text != o3.text:
-            return Result(False, "text-differs", nontrivial, labels, _first_line_diff(o3.text, o8.text))
+            d = _first_line_diff(o3.text, o8.text)
+            tag = ""
+            if d.get("f2003", "").strip() == "MODULE " + d.get("f2008", "").strip() and d["f2008"].strip().startswith("PROCEDURE "):
+                tag = ":module-inserted-before-procedure"
+            return Result(False, "text-differs" + tag, nontrivial, labels, d)
         return Result(True, None, nontrivial, labels, classes=classes)
     # domain B
     nontrivial = meta.get("f08_depth", meta.get("depth", 0)) >= 2 or bool(meta.get("catalogue"))
